@@ -414,3 +414,52 @@ def c06():
 
 
 SPECS.update({"C16": c16, "C06": c06})
+
+
+# ------------------------------------------------------------------------------ bgpmon-based properties
+BGP_ASSUME = ["OpenSSL's EVP_DigestSign/EVP_DigestVerify and SHA-256 are the trusted base of the oracle (the library itself uses the low-level ECDSA_* interface)",
+              "the oracle's RFC 8205 section 4.2 octet-sequence builder works on plain arrays and shares no code with rtrlib's stream / alignment code",
+              "ASan/UBSan blind spots; libcrypto is not instrumented"]
+
+
+def c11():
+    return dict(
+        id="C11", level="exploration", engine="bgpmon",
+        builds=[dict(name="bgpmon", config="asan", harness=["bgpmon.c"], wraps=["lrtr_dbg"])],
+        runs=[dict(name="validate", bin="bgpmon", config="asan", mode="validate", cases=T(9000, 120000), args=["hops=8", "flips=36"], chunks=48),
+              dict(name="validate-long", bin="bgpmon", config="asan", mode="validate", cases=T(480, 8000), args=["hops=32", "flips=24"], chunks=16)],
+        floors={"c11/validations": T(150000, 2000000), "c11/expected/1": T(4000, 60000), "c11/bitflip/signature": T(9000, 120000),
+                "c11/key_table/right-key-under-other-AS-only": T(1200, 18000), "c11/unequal_segment_counts": T(600, 9000)},
+        rule=("Fresh P-256 key pairs; paths of 1..8 (and 1..32) hops with arbitrary pCount / flags / AS values, IPv4 NLRI of every "
+              "length 0..32 and IPv6 0..128, signed hop by hop from the origin by the ORACLE's own signer over the ORACLE's own RFC 8205 "
+              "4.2 octet sequence; six key-table variants (all correct; the right key registered only under another AS; a wrong key "
+              "under the right AS plus the right key under a wrong AS; several keys per SKI; one SKI missing; unrelated extra keys; "
+              "shared SKIs between hops). Then single-bit corruptions of every signed field: target AS, any pCount / flags / AS, "
+              "algorithm suite, AFI (hashed and checked), SAFI, NLRI length and bytes, SKI and signature of any hop. Oracle per "
+              "validation: expected VALID iff for every hop some key registered for (SKI, AS of that hop's Secure_Path Segment) "
+              "verifies the signature under EVP over the oracle's sequence; specific codes for a SKI absent from the table, unsupported "
+              "suite, unsupported AFI, unequal segment counts; every other case must merely differ from VALID. Calls go through "
+              "rtr_bgpsec_validate_as_path and rtr_mgr_bgpsec_validate_as_path. Distinct by hash of the signed path and key-table variant."),
+        assumptions=BGP_ASSUME,
+    )
+
+
+def c12():
+    return dict(
+        id="C12", level="exploration", engine="bgpmon",
+        builds=[dict(name="bgpmon", config="asan", harness=["bgpmon.c"], wraps=["lrtr_dbg"])],
+        runs=[dict(name="sign", bin="bgpmon", config="asan", mode="sign", cases=T(16000, 200000), args=["hops=8"], chunks=48),
+              dict(name="sign-long", bin="bgpmon", config="asan", mode="sign", cases=T(400, 6000), args=["hops=32"], chunks=16)],
+        floors={"c12/signatures_verified_independently": T(60000, 800000), "c12/assembled_paths_validated": T(15000, 200000), "c12/negative_cases": T(15000, 200000)},
+        rule=("For random paths (1..8 and 1..32 hops, every NLRI length of both families, arbitrary field values, keys drawn from 24 "
+              "fresh P-256 pairs) every hop from the origin to the newest is signed through rtr_mgr_bgpsec_generate_signature; each "
+              "result must be exactly one well-formed DER ECDSA-Sig-Value of the announced length and must verify under the matching "
+              "public key with EVP_DigestVerify over the ORACLE's RFC 8205 4.2 octet sequence; the path assembled from the generated "
+              "signatures must validate as VALID both by the library and by the oracle. Negative cases per path: random, truncated "
+              "and wrong-curve (P-384) private keys -> LOAD_PRIV_KEY_ERROR; unsupported suite / AFI and path_len != sigs_len + 1 -> "
+              "their specific codes with *new_signature left NULL. Distinct by hash of the path."),
+        assumptions=BGP_ASSUME,
+    )
+
+
+SPECS.update({"C11": c11, "C12": c12})
